@@ -1798,7 +1798,8 @@ impl ArchiveBuilder {
         let index_size = header.index_size;
 
         // Create hash table (8-bit name hashes)
-        let mut het_hash_table = vec![0xFFu8; hash_table_entries as usize]; // Initialize with 0xFF (empty)
+        // A free slot is 0x00: a name hash always has its top bit set (0x80..=0xFF)
+        let mut het_hash_table = vec![0u8; hash_table_entries as usize];
 
         // Create file indices array
         let file_indices_size = (header.total_index_size as usize).div_ceil(8);
@@ -1834,8 +1835,8 @@ impl ArchiveBuilder {
             // Linear probing for collision resolution
             let mut current_index = start_index;
             loop {
-                // Check if slot is empty (0xFF)
-                if het_hash_table[current_index] == 0xFF {
+                // Check if slot is free
+                if het_hash_table[current_index] == 0 {
                     // Store the 8-bit name hash
                     het_hash_table[current_index] = name_hash1;
 
@@ -1866,7 +1867,7 @@ impl ArchiveBuilder {
 
             let mut current_index = start_index;
             loop {
-                if het_hash_table[current_index] == 0xFF {
+                if het_hash_table[current_index] == 0 {
                     het_hash_table[current_index] = name_hash1;
                     self.write_bit_entry(
                         &mut file_indices,
